@@ -81,6 +81,10 @@ public:
 	// functions of the state, and only with an unbounded budget (every alternative of a first visit is explored)
 	bool stateful;
 	std::function<void(uint64_t &, uint64_t &)> stateHash;
+	// optional: hash of ALL shared state the threads can read outside the injected policies. Mixed into a thread's observation
+	// hash every time it starts an atomic block: a deterministic thread's local state after a block is a function of its local
+	// state before and the shared state during the block.
+	std::function<uint64_t()> sharedHash;
 	std::unordered_set<uint64_t> * visitedA; std::unordered_set<uint64_t> * visitedB;
 	bool pruned;
 	bool quiet;             // after a prune: no new choices, defaults only
@@ -311,17 +315,19 @@ inline void Sched::switchFrom(VThread * m, const char * tag) {
 	if(isTimeout[pick]) next->timedOut = true;
 	if(pick >= realOptions) { ++spuriousUsed; next->spurious = true; if(gctx()->wantLog()) gctx()->log(fmt("-- spurious wake-up of T%d", next->id)); }
 	if(gctx()->wantLog() && (next != m)) gctx()->log(fmt("-- switch T%d -> T%d%s at %s", m->id, next->id, isTimeout[pick] ? " (timeout fires)" : "", tag));
-	if(next == m) return;
+	if(next == m) { if(sharedHash && stateful) m->obs = mix64(m->obs, sharedHash()); return; }
 	cur = next->id;
 	sem_post(&next->sem);
 	if(m->st == T_DONE) return;
 	semWait(&m->sem);
 	if(aborting) throw SchedAbort{};
+	if(sharedHash && stateful) m->obs = mix64(m->obs, sharedHash());
 }
 
 inline void Sched::threadMain(VThread * t) {
 	me() = t;
 	semWait(&t->sem);
+	if(!aborting && sharedHash && stateful) t->obs = mix64(t->obs, sharedHash());
 	if(!aborting) {
 		try { t->body(); }
 		catch(SchedAbort &) {}
